@@ -1,4 +1,5 @@
 import I18n.Model.Msg
+import I18n.Spec.MessageRules
 import I18n.Driver.Tags
 /- Driver for the message-check model (`msg …`).  Strings: `.`-separated hexadecimal code points, `-` = empty, `~` = None.
    An entry is one token `msgid/msgctxt/msgid_plural/msgstr/forms/flags/obsolete/prev_msgctxt/prev_msgid/prev_msgid_plural/comment`
@@ -75,6 +76,15 @@ def handle (op : String) (args : List String) : String :=
       let env := liveEnv (xmlOf (parseXml (rest.drop k)))
       "ok " ++ showEmits (run env (parseCtx ctx) entries)
     | none => "bad-op"
+  | "spec", ctx :: n :: rest =>
+    -- the reference rules (Spec.MessageRules), evaluated: compared with the REAL code by the `spec-vs-code` stream
+    let k := n.toNat!
+    match (rest.take k).mapM parseEntry with
+    | some entries =>
+      let env := liveEnv (xmlOf (parseXml (rest.drop k)))
+      let r := Spec.MessageRules.messageRules env (parseCtx ctx) entries
+      "ok " ++ showEmits (r.1.flatten ++ r.2)
+    | none => "bad-op"
   | "flags", [e] =>
     match parseEntry e with
     | some e =>
@@ -91,10 +101,7 @@ def handle (op : String) (args : List String) : String :=
     match parseRange liveFlagEnv (unhexCps s) with
     | some (i, j) => s!"ok {i},{j}"
     | none => "ok ~"
-  | "repr", [colon, msgid, ctxt] =>
-    match Tags.messageRepr Tags.liveDb (unhexCps msgid) (optStr ctxt) (if colon == "1" then tplColon else tplPlain) with
-    | .ok s => "ok " ++ hexCps s
-    | .error _ => "err"
+  | "repr", [colon, msgid, ctxt] => "ok " ++ hexCps (msgRepr Tags.liveDb (unhexCps msgid) (optStr ctxt) (colon == "1"))
   | _, _ => "bad-op"
 
 end I18n.Driver.Msg
